@@ -850,6 +850,19 @@ def C10(run):
     rng = rng_for(run)
     n = budget(run, 3000, 60000)
     cases = campaign.make_cases(rng, n, ALL, equal_ranks=0.2)
+    # equal rankings with multipliers under the Meek family in rounding arithmetic: the opening tally of an equal-ranked line is
+    # (1/n) x multiplier, rounded before the multiplication - splitting or merging such lines must not move a digit
+    for _ in range(n // 8):
+        p = gen.add_equal_ranks(rng, gen.plain(rng, maxc=6, maxb=6, mults=[1, 2, 3, 3, 5, 7, 30]))
+        if rng.random() < 0.5:
+            # make sure one line opens with an equal-rank group of 3 and carries a multiplier
+            cs = list(range(1, p['n'] + 1)); rng.shuffle(cs)
+            if len(cs) >= 3:
+                p = dict(p); p['lines'] = list(p['lines']) + [(rng.choice([2, 3, 5, 7]), [cs[:3]] + cs[3:])]
+        rule = rng.choice(['meek', 'warren'])
+        o = dict(rule=rule, arithmetic='fixed', precision=rng.choice([3, 4, 6, 9])) if rng.random() < 0.7 else \
+            dict(rule=rule, arithmetic='guarded', precision=rng.choice([4, 6]), guard=0)
+        cases.append(('equal_rank_multipliers', p, o))
     items, meta = [], []
     for fam, p, o in cases:
         base = gen.blt(p)
